@@ -91,10 +91,24 @@ def h_preempt(ex, dll, L, kind, victim, windows=(1, 1), hold='1/1000', two=False
     ex.claim('accepted', r is True)
     seg = 7 if dll == 'j1939-21' else 60
     npk = (L + seg - 1) // seg
-    w.run(until=w.now + T(8) + Fraction(6, 100) * npk)
+    # "both sides idle afterwards": as soon as the bus has been quiet for 150 ms (no state of a fault-free transfer
+    # waits that long) the pair must accept the next transfer - a session that lingers until its timeout is not idle
+    limit = w.now + T(8) + Fraction(6, 100) * npk
+    while bool(w.now < limit):
+        n_before = len(w.log)
+        w.run(until=w.now + Fraction(3, 20))
+        if len(w.log) == n_before:
+            break
     info = {'victim': victim, 'preempted_at': pre.where, 'lines_executed': pre.count}
+    early = Msg.__new__(Msg)
+    early.src, early.dst, early.kind, early.pdu2, early.L, early.dll = sa, sb, kind, m.pdu2, L + 2, dll
+    early.dp, early.pf, early.ps, early.prio, early.payload = m.dp, m.pf, m.ps, 6, [(9 * j + 4) % 256 for j in range(L + 2)]
+    early.broadcast, early.connection = m.broadcast, (kind == 'p2p')
+    r_early = early.send()
+    ex.claim('idle_soon_after_completion.next_transfer_accepted', r_early is True, dict(info, quiet_since=str(w.now)))
+    w.run(until=w.now + T(8) + Fraction(6, 100) * npk)
     ex.claim('job_threads_alive', sa.alive() and sb.alive(), dict(info, dead=[repr(s.node.dead) for s in stacks if s.node.dead], spin=[s.name for s in stacks if s.node.spin]))
-    expect = [m]
+    expect = [m] + ([early] if r_early is True else [])
     if second['msg'] is not None:
         # J1939-21 allows one transfer per pair: the second call may be refused (False) while the first is in progress
         if second['ret'] is True:
